@@ -1641,7 +1641,13 @@ fn parse_action(input: &str) -> InputAction {
             return InputAction::Checkpoint(envelope.checkpoint);
         }
         if let Ok(command) = serde_json::from_str::<ToolCommand>(trimmed) {
-            return InputAction::Tool(command);
+            // Arguments nested too deeply to be stored in a frame: not a tool envelope.
+            if !rip_provider_openresponses::json_nesting_exceeds(
+                &command.args,
+                rip_provider_openresponses::MAX_FRAME_PAYLOAD_NESTING,
+            ) {
+                return InputAction::Tool(command);
+            }
         }
     }
 
